@@ -164,10 +164,12 @@ def stateless (w : List String) : Option String :=
       else if o == "f" || o == "e" then some (NSAddr.failed .other)
       else if o.startsWith "l:" || o.startsWith "x:" then (parseCause (o.drop 2).toString).map NSAddr.failed
       else none
-    match lookupV4Nss os false none with
-    | .servers => some "servers"
-    | .noServers => some "noservers"
-    | .error c => some ("err:" ++ causeStr c)
+    let r := lookupV4NssProv os false none false
+    let prov := " prov=" ++ boolStr r.2
+    match r.1 with
+    | .servers => some ("servers" ++ prov)
+    | .noServers => some ("noservers" ++ prov)
+    | .error c => some ("err:" ++ causeStr c ++ prov)
   | ["fail", "l3zone", spec, _delay] => do
     -- the result loop of Resolver.lookup + the tail of resolve, on the servers' scripted outcomes
     let outs ← (parseCsv spec).mapM fun b =>
